@@ -1419,15 +1419,27 @@ def inner_bindings_shadow_outer(idx: Index, rep: Report, rule: str) -> None:
 
 
 def c01(idx: Index, rep: Report, tier: str) -> None:
+    from .generic import delegate
+
+    if delegate(idx, rep, tier, "C36", ("C36.3", "C36.5", "C36.6"), "the simulator's states are UPState chains") < 3:
+        raise AnalysisError("C01: the delegated UPState clauses vanished")
     sim_effects_recorded(idx, rep, "C01.4")
     inner_bindings_shadow_outer(idx, rep, "C01.5 inner-bindings-shadow-outer")
 
 
 def c02(idx: Index, rep: Report, tier: str) -> None:
+    from .generic import delegate
+
+    if delegate(idx, rep, tier, "C14", ("C14.1",), "applicability is evaluated by a DagWalker; its answers must not depend on earlier failed walks") < 1:
+        raise AnalysisError("C02: the delegated walker clauses vanished")
     sim_effects_recorded(idx, rep, "C02.5")
 
 
 def c03(idx: Index, rep: Report, tier: str) -> None:
+    from .generic import delegate
+
+    if delegate(idx, rep, tier, "C01", ("C01.1", "C36.3", "C36.5", "C36.6"), "sequential validation replays the plan on the simulator") < 2:
+        raise AnalysisError("C03: the delegated simulator clauses vanished")
     sim_effects_recorded(idx, rep, "C03.5")
 
 
@@ -1821,6 +1833,10 @@ def quantified_effects_accumulate(idx: Index, rep: Report, rule: str) -> None:
 
 
 def c04(idx: Index, rep: Report, tier: str) -> None:
+    from .generic import delegate
+
+    if delegate(idx, rep, tier, "C01", ("C01.1",), "the sequential side of the comparison is the simulator's successor function") < 1:
+        raise AnalysisError("C04: the delegated simulator clause vanished")
     interval_helper_exhaustive(idx, rep, "C04.3 T15 interval-states-exhaustive")
     quantified_effects_accumulate(idx, rep, "C04.5 T1 quantified-effects-accumulate")
     same_instant_merge_order_independent(idx, rep, "C04.4 T15 same-instant-merge-order-independent")
@@ -2345,6 +2361,10 @@ def c14(idx: Index, rep: Report, tier: str) -> None:
 def c16(idx: Index, rep: Report, tier: str) -> None:
     """Nodes are created through the normalising constructors of ExpressionManager: create_node is called by the
     manager's own methods only (a direct call elsewhere skips flattening / double-negation / constant rules)."""
+    from .generic import delegate
+
+    if delegate(idx, rep, tier, "C14", ("C14.3",), "a node enters the hash-consing table only after it was validated") < 1:
+        raise AnalysisError("C16: the delegated create_node clause vanished")
     rule = "C16.3 T11 create_node-called-by-the-manager-only"
     em = idx.cls("model.expression.ExpressionManager")
     n = 0
